@@ -40,18 +40,26 @@ import (
 	"strings"
 )
 
-const version = "hazards-v10"
+const version = "hazards-v14"
 
 var scopeDirs = []string{"app", "x", "adapter", "syscontracts", "types", "ibc"}
 
 type site struct {
 	File, Func, Kind, Hash, FnHash, Text string
+	KVar, VVar, Ranged, Body, After    string // loop IR (Coq terms of Model/MapLoopsIR.v)
 }
 
 type hazard struct {
 	File, Func, Kind, Detail string
 	Count                    int
 }
+
+// the ETH seal verification's environment touch points, regenerated: fields of the Config literal(s) and arguments of
+// the VerifySeal call(s) in eth/types/header.go VerifyCascadingFields
+var ethConfig [][2]string
+var ethSealArgs []string
+
+const ethHeaderFile = "x/xibc/clients/light-clients/eth/types/header.go"
 
 func die(f string, a ...interface{}) {
 	fmt.Fprintf(os.Stderr, "hazards: "+f+"\n", a...)
@@ -183,6 +191,7 @@ func main() {
 
 	// ---- type-check each scope package from source and walk it ------------------------------------
 	var sites []site
+	var lessMethods [][2]string
 	hz := map[[4]string]int{}
 	typeErrs := 0
 	var firstErrs []string
@@ -225,7 +234,7 @@ func main() {
 			if !ok {
 				continue
 			}
-			w := &walker{fset: fset, info: info, file: rel, hz: hz}
+			w := &walker{fset: fset, info: info, file: rel, hz: hz, less: &lessMethods}
 			w.walkFile(f)
 			sites = append(sites, w.sites...)
 			nRange += w.nRange
@@ -254,7 +263,7 @@ func main() {
 	var b bytes.Buffer
 	fmt.Fprintf(&b, "(* GENERATED by tools/gotocoq/hazards from the Go source tree — do not edit. *)\n")
 	fmt.Fprintf(&b, "(* input-hash: %s *)\n", inputHash)
-	fmt.Fprintf(&b, "From Coq Require Import String List NArith.\nImport ListNotations.\nLocal Open Scope string_scope.\n\n")
+	fmt.Fprintf(&b, "From Coq Require Import String List NArith.\nFrom Teleport Require Import Model.MapLoopsIR.\nImport ListNotations.\nLocal Open Scope string_scope.\n\n")
 	fmt.Fprintf(&b, "(* files scanned / range statements seen / go/types errors (must be 0: otherwise classification is unreliable) *)\n")
 	fmt.Fprintf(&b, "Definition files_scanned : N := %d%%N.\nDefinition range_statements : N := %d%%N.\nDefinition typecheck_errors : N := %d%%N.\n", len(files), nRange, typeErrs)
 	for _, e := range firstErrs {
@@ -269,7 +278,36 @@ func main() {
 		}
 		fmt.Fprintf(&b, "  (%s, %s, %s, %s, %s,\n   %s)%s\n", q(s.File), q(s.Func), q(s.Kind), q(s.Hash), q(s.FnHash), q(s.Text), sep)
 	}
-	fmt.Fprintf(&b, "].\n\n(* every other construct whose value is not a function of the block inputs:\n   (file, function, kind, detail, number of occurrences in that function) *)\n")
+	fmt.Fprintf(&b, "].\n\n(* the same statements as terms of the loop language of Model/MapLoopsIR.v (mechanical translation: statements by\n   syntactic form, expressions opaque with the variables they read and the functions they call) *)\n")
+	fmt.Fprintf(&b, "Definition map_range_sites_ir : list site := [\n")
+	for i, s := range sites {
+		sep := ";"
+		if i == len(sites)-1 {
+			sep = ""
+		}
+		fmt.Fprintf(&b, "  {| s_file := %s; s_func := %s; s_hash := %s; s_kvar := %s; s_vvar := %s;\n     s_ranged := %s;\n     s_body := %s;\n     s_after := %s;\n     s_text := %s |}%s\n",
+			q(s.File), q(s.Func), q(s.Hash), q(s.KVar), q(s.VVar), s.Ranged, s.Body, s.After, q(s.Text), sep)
+	}
+	fmt.Fprintf(&b, "].\n\n(* every method named Less in the scope: (receiver type, normalised declaration) — what sort.Sort(T(x)) orders by *)\n")
+	sort.Slice(lessMethods, func(i, j int) bool { return lessMethods[i][0]+lessMethods[i][1] < lessMethods[j][0]+lessMethods[j][1] })
+	fmt.Fprintf(&b, "Definition less_methods : list (string * string) := [\n")
+	for i, m := range lessMethods {
+		sep := ";"
+		if i == len(lessMethods)-1 {
+			sep = ""
+		}
+		fmt.Fprintf(&b, "  (%s, %s)%s\n", q(m[0]), q(m[1]), sep)
+	}
+	fmt.Fprintf(&b, "].\n\n(* ETH seal verification (eth/types/header.go VerifyCascadingFields): fields of the ethash Config literal and the\n   arguments of the VerifySeal call, as written *)\n")
+	var cfg, sargs []string
+	for _, kv := range ethConfig {
+		cfg = append(cfg, fmt.Sprintf("(%s, %s)", q(kv[0]), q(kv[1])))
+	}
+	for _, a := range ethSealArgs {
+		sargs = append(sargs, q(a))
+	}
+	fmt.Fprintf(&b, "Definition eth_verify_config : list (string * string) := %s.\nDefinition eth_verify_seal_args : list string := %s.\n", coqList(cfg), coqList(sargs))
+	fmt.Fprintf(&b, "\n(* every other construct whose value is not a function of the block inputs:\n   (file, function, kind, detail, number of occurrences in that function) *)\n")
 	fmt.Fprintf(&b, "Definition other_hazards : list (string * string * string * string * N) := [\n")
 	for i, z := range hazards {
 		sep := ";"
@@ -386,6 +424,33 @@ type walker struct {
 	sites  []site
 	hz     map[[4]string]int
 	nRange int
+	stack  []ast.Node        // ancestors of the node being visited
+	less   *[][2]string      // (receiver type, normalised text) of every method named Less
+	vname  map[*types.Var]string // per site: emitted name of each variable (capture-free: a declaration that shadows gets a fresh name)
+	vused  map[string]*types.Var
+	body   *ast.BlockStmt // body of the function declaration being walked
+	loop   *ast.RangeStmt // the range statement being translated (nil outside loopIR)
+	depth  int // nesting depth of loops inside the range body being translated (continue/break refer to the innermost)
+}
+
+// varName gives every variable object of the current site ONE name; two different objects never share a name
+func (w *walker) varName(v *types.Var) string {
+	if n, ok := w.vname[v]; ok {
+		return n
+	}
+	n := v.Name()
+	if o, taken := w.vused[n]; taken && o != v {
+		for i := 2; ; i++ {
+			c := fmt.Sprintf("%s#%d", v.Name(), i)
+			if _, t := w.vused[c]; !t {
+				n = c
+				break
+			}
+		}
+	}
+	w.vname[v] = n
+	w.vused[n] = v
+	return n
 }
 
 func (w *walker) add(kind, detail string) {
@@ -408,13 +473,42 @@ func (w *walker) walkFile(f *ast.File) {
 		switch d := d.(type) {
 		case *ast.FuncDecl:
 			w.fn = recvName(d)
+			if d.Name.Name == "Less" && d.Recv != nil && len(d.Recv.List) > 0 {
+				var rb bytes.Buffer
+				printer.Fprint(&rb, token.NewFileSet(), d.Recv.List[0].Type)
+				*w.less = append(*w.less, [2]string{strings.TrimPrefix(rb.String(), "*"), w.norm(&ast.FuncDecl{Recv: d.Recv, Name: d.Name, Type: d.Type, Body: d.Body})})
+			}
 			fsum := sha256.Sum256([]byte(w.norm(&ast.FuncDecl{Recv: d.Recv, Name: d.Name, Type: d.Type, Body: d.Body})))
 			w.fnHash = hex.EncodeToString(fsum[:8])
+			w.body = d.Body
+			if w.file == ethHeaderFile && d.Name.Name == "VerifyCascadingFields" && d.Body != nil {
+				ast.Inspect(d.Body, func(m ast.Node) bool {
+					switch m := m.(type) {
+					case *ast.CompositeLit:
+						if id, ok := m.Type.(*ast.Ident); ok && id.Name == "Config" {
+							for _, el := range m.Elts {
+								if kv, ok := el.(*ast.KeyValueExpr); ok {
+									ethConfig = append(ethConfig, [2]string{w.norm(kv.Key), w.norm(kv.Value)})
+								} else {
+									ethConfig = append(ethConfig, [2]string{"?", w.norm(el)})
+								}
+							}
+						}
+					case *ast.CallExpr:
+						if sel, ok := m.Fun.(*ast.SelectorExpr); ok && sel.Sel.Name == "VerifySeal" {
+							for _, a := range m.Args {
+								ethSealArgs = append(ethSealArgs, w.norm(a))
+							}
+						}
+					}
+					return true
+				})
+			}
 			if d.Body != nil {
-				ast.Inspect(d.Body, w.visit)
+				w.inspect(d.Body)
 			}
 			if d.Type != nil {
-				ast.Inspect(d.Type, w.visit)
+				w.inspect(d.Type)
 			}
 		case *ast.GenDecl:
 			for _, sp := range d.Specs {
@@ -427,10 +521,10 @@ func (w *walker) walkFile(f *ast.File) {
 					w.fn = "<package-level " + nm + ">"
 					vsum := sha256.Sum256([]byte(w.norm(sp)))
 					w.fnHash = hex.EncodeToString(vsum[:8])
-					ast.Inspect(sp, w.visit)
+					w.inspect(sp)
 				case *ast.TypeSpec:
 					w.fn = "<type " + sp.Name.Name + ">"
-					ast.Inspect(sp, w.visit)
+					w.inspect(sp)
 				}
 			}
 		}
@@ -452,10 +546,15 @@ var pkgKinds = map[string]string{
 	"os/exec": "os-exec", "os/user": "os-user", "os/signal": "os-signal", "syscall": "syscall", "unsafe": "unsafe",
 	"runtime": "runtime", "runtime/debug": "runtime", "sync": "sync", "sync/atomic": "sync", "reflect": "reflect",
 	"github.com/edsrzf/mmap-go": "mmap", "net": "net", "io/fs": "os", "embed": "os",
+	"maps": "map-order", "golang.org/x/exp/maps": "map-order", // Keys / Values / All ...: map iteration order in a slice or iterator
 }
 
 var timeFuncs = map[string]bool{"Now": true, "Since": true, "Until": true, "After": true, "Tick": true, "NewTimer": true,
 	"NewTicker": true, "Sleep": true, "AfterFunc": true}
+
+// time values in the node's local zone: time.Unix & co return Local times, time.Local / LoadLocation read TZ and the zone database
+var localTimeFuncs = map[string]bool{"Unix": true, "UnixMilli": true, "UnixMicro": true, "Local": true, "LoadLocation": true,
+	"LoadLocationFromTZData": true, "FixedZone": false}
 
 func isFloat(t types.Type) bool {
 	if t == nil {
@@ -514,7 +613,9 @@ func (w *walker) visit(n ast.Node) bool {
 		if kind != "" {
 			txt := w.norm(n)
 			sum := sha256.Sum256([]byte(txt))
-			w.sites = append(w.sites, site{w.file, w.fn, kind, hex.EncodeToString(sum[:8]), w.fnHash, txt})
+			st := site{File: w.file, Func: w.fn, Kind: kind, Hash: hex.EncodeToString(sum[:8]), FnHash: w.fnHash, Text: txt}
+			w.loopIR(n, &st)
+			w.sites = append(w.sites, st)
 		}
 	case *ast.GoStmt:
 		w.add("go-stmt", "go")
@@ -585,6 +686,9 @@ func (w *walker) visit(n ast.Node) bool {
 			}
 		}
 	case *ast.SelectorExpr:
+		if f, isF := w.info.Uses[n.Sel].(*types.Func); isF && f.FullName() == "(time.Time).Local" {
+			w.add("local-time", "(time.Time).Local (conversion to the node's LOCAL zone)")
+		}
 		id, ok := n.X.(*ast.Ident)
 		if !ok {
 			break
@@ -601,7 +705,10 @@ func (w *walker) visit(n ast.Node) bool {
 		switch path {
 		case "time":
 			if timeFuncs[n.Sel.Name] {
-				w.add("wall-clock", "time."+n.Sel.Name)
+				w.add("wall-clock", "time."+n.Sel.Name+w.clockSink())
+			}
+			if localTimeFuncs[n.Sel.Name] {
+				w.add("local-time", "time."+n.Sel.Name+" (a time in the node's LOCAL zone: String / Format / Date fields depend on TZ)")
 			}
 		case "math", "math/cmplx":
 			if _, isFn := w.info.Uses[n.Sel].(*types.Func); isFn {
@@ -620,4 +727,569 @@ func (w *walker) visit(n ast.Node) bool {
 		return false
 	}
 	return true
+}
+
+// ---------------------------------------------------------------------------------------------------
+// loop IR (Model/MapLoopsIR.v): a mechanical translation of the range statement.  Statements by syntactic form;
+// expressions stay opaque: printed text, variables read, functions called.
+// ---------------------------------------------------------------------------------------------------
+
+// inspect is ast.Inspect with the ancestor stack maintained (needed to find the statements after a loop)
+func (w *walker) inspect(root ast.Node) {
+	ast.Inspect(root, func(n ast.Node) bool {
+		if n == nil {
+			w.stack = w.stack[:len(w.stack)-1]
+			return true
+		}
+		ok := w.visit(n)
+		if ok {
+			w.stack = append(w.stack, n)
+		}
+		return ok
+	})
+}
+
+func coqList(items []string) string {
+	return "[" + strings.Join(items, "; ") + "]"
+}
+
+func coqStrList(items []string) string {
+	var qs []string
+	for _, i := range items {
+		qs = append(qs, q(i))
+	}
+	return coqList(qs)
+}
+
+// exprIR: (E text reads calls); ok = false when the expression's value is not a function of the variables it reads
+// as far as this translator can tell (function literal, channel receive, call through a function value)
+func (w *walker) exprIR(e ast.Expr) (string, bool) {
+	ok := true
+	var reads, calls []string
+	seenR, seenC := map[string]bool{}, map[string]bool{}
+	ast.Inspect(e, func(n ast.Node) bool {
+		switch n := n.(type) {
+		case *ast.FuncLit:
+			ok = false
+			return false
+		case *ast.UnaryExpr:
+			if n.Op == token.ARROW {
+				ok = false
+			}
+			// &x of a variable that is not declared inside the loop body: with per-loop variables (go.mod < 1.22) every
+			// iteration sees the SAME variable, so the address aliases whatever entry comes last
+			if n.Op == token.AND && w.outlivesIteration(n.X) {
+				ok = false
+			}
+		case *ast.SliceExpr:
+			// x[:] of an ARRAY variable aliases the variable's storage in the same way
+			if t := w.info.TypeOf(n.X); t != nil {
+				if _, isArr := t.Underlying().(*types.Array); isArr && w.outlivesIteration(n.X) {
+					ok = false
+				}
+			}
+		case *ast.SelectorExpr:
+			// the selected name is a field or method, not a variable read (unless it is a package-level variable)
+			if id, isId := n.X.(*ast.Ident); isId {
+				if _, isPkg := w.info.Uses[id].(*types.PkgName); isPkg {
+					if v, isVar := w.info.Uses[n.Sel].(*types.Var); isVar && !seenR[id.Name+"."+v.Name()] {
+						seenR[id.Name+"."+v.Name()] = true
+						reads = append(reads, id.Name+"."+v.Name())
+					}
+					return false
+				}
+			}
+			ast.Inspect(n.X, func(m ast.Node) bool { // only the receiver expression is read
+				if id, isId := m.(*ast.Ident); isId {
+					if v, isVar := w.info.Uses[id].(*types.Var); isVar && !v.IsField() && !seenR[w.varName(v)] {
+						seenR[w.varName(v)] = true
+						reads = append(reads, w.varName(v))
+					}
+				}
+				if _, isLit := m.(*ast.FuncLit); isLit {
+					ok = false
+					return false
+				}
+				return true
+			})
+			// calls inside the receiver expression are still visited by the outer Inspect (return true), reads were taken above
+			return true
+		case *ast.Ident:
+			if v, isVar := w.info.Uses[n].(*types.Var); isVar && !v.IsField() && !seenR[w.varName(v)] {
+				seenR[w.varName(v)] = true
+				reads = append(reads, w.varName(v))
+			}
+		case *ast.CallExpr:
+			if tv, has := w.info.Types[n.Fun]; has && tv.IsType() {
+				break // conversion
+			}
+			name := ""
+			switch f := n.Fun.(type) {
+			case *ast.Ident:
+				switch o := w.info.Uses[f].(type) {
+				case *types.Builtin:
+					name = o.Name()
+				case *types.Func:
+					name = o.FullName()
+				}
+			case *ast.SelectorExpr:
+				if o, isF := w.info.Uses[f.Sel].(*types.Func); isF {
+					name = o.FullName()
+				}
+			case *ast.ParenExpr:
+			}
+			if name == "" {
+				ok = false // call through a function value (or something this translator does not resolve)
+			} else if !seenC[name] {
+				seenC[name] = true
+				calls = append(calls, name)
+			}
+		}
+		return true
+	})
+	return fmt.Sprintf("(E %s %s %s)", q(w.norm(e)), coqStrList(reads), coqStrList(calls)), ok
+}
+
+// nameOf: the site-unique name of the variable an identifier defines or uses ("" if it is not a variable)
+func (w *walker) nameOf(id *ast.Ident) string {
+	if v, ok := w.info.Defs[id].(*types.Var); ok {
+		return w.varName(v)
+	}
+	if v, ok := w.info.Uses[id].(*types.Var); ok {
+		return w.varName(v)
+	}
+	return ""
+}
+
+// outlivesIteration: is the storage designated by e (x, x.f, x[i], (x)) that of a variable declared OUTSIDE the body of the
+// loop being translated (this includes the loop variables themselves)?  Pointer indirections end the chain: *p / p.f
+// with p a pointer designate storage that is not the variable's own.
+func (w *walker) outlivesIteration(e ast.Expr) bool {
+	for {
+		switch x := e.(type) {
+		case *ast.ParenExpr:
+			e = x.X
+			continue
+		case *ast.SelectorExpr:
+			if t := w.info.TypeOf(x.X); t != nil {
+				if _, isPtr := t.Underlying().(*types.Pointer); isPtr {
+					return false
+				}
+			}
+			e = x.X
+			continue
+		case *ast.IndexExpr:
+			if t := w.info.TypeOf(x.X); t != nil {
+				if _, isArr := t.Underlying().(*types.Array); !isArr {
+					return false // element of a slice or map: not the variable's own storage
+				}
+			}
+			e = x.X
+			continue
+		case *ast.Ident:
+			v, ok := w.info.Uses[x].(*types.Var)
+			if !ok {
+				return false
+			}
+			if w.loop == nil || w.loop.Body == nil {
+				return true
+			}
+			return !(v.Pos() >= w.loop.Body.Pos() && v.Pos() <= w.loop.Body.End())
+		default:
+			return false
+		}
+	}
+}
+
+// fresh: is the object (map or slice variable) written by the loop created in this function by make(...) / a composite
+// literal / a zero-value var declaration, and never assigned as a whole anywhere else?  Otherwise it may alias the ranged
+// map (storing into the map being ranged over makes the set of iterations itself unspecified) or another live object.
+func (w *walker) fresh(id *ast.Ident) bool {
+	obj, ok := w.info.Uses[id].(*types.Var)
+	if !ok || w.body == nil {
+		return false
+	}
+	created, reassigned := false, false
+	ast.Inspect(w.body, func(m ast.Node) bool {
+		switch m := m.(type) {
+		case *ast.AssignStmt:
+			for i, l := range m.Lhs {
+				lid, isId := l.(*ast.Ident)
+				if !isId {
+					continue
+				}
+				if m.Tok == token.DEFINE && w.info.Defs[lid] == obj && len(m.Lhs) == len(m.Rhs) {
+					switch r := m.Rhs[i].(type) {
+					case *ast.CallExpr:
+						if w.isBuiltin(r.Fun, "make") {
+							created = true
+						}
+					case *ast.CompositeLit:
+						created = true
+					}
+					continue
+				}
+				if w.info.Uses[lid] == obj { // x = ... (x = append(x, e) keeps x its own object)
+					if call, isCall := m.Rhs[min(i, len(m.Rhs)-1)].(*ast.CallExpr); isCall && w.isBuiltin(call.Fun, "append") && len(call.Args) > 0 {
+						if a0, isId0 := call.Args[0].(*ast.Ident); isId0 && w.info.Uses[a0] == obj {
+							continue
+						}
+					}
+					reassigned = true
+				}
+			}
+		case *ast.ValueSpec: // var x T  (zero value)
+			for _, nm := range m.Names {
+				if w.info.Defs[nm] == obj && len(m.Values) == 0 {
+					created = true
+				}
+			}
+		}
+		return true
+	})
+	return created && !reassigned
+}
+
+func (w *walker) other(s ast.Node) []string {
+	return []string{"SOther " + q(w.norm(s))}
+}
+
+func (w *walker) isMapIdent(e ast.Expr) (string, bool) {
+	id, ok := e.(*ast.Ident)
+	if !ok {
+		return "", false
+	}
+	t := w.info.TypeOf(id)
+	if t == nil {
+		return "", false
+	}
+	_, isMap := t.Underlying().(*types.Map)
+	n := w.nameOf(id)
+	return n, isMap && n != ""
+}
+
+func (w *walker) isBuiltin(f ast.Expr, name string) bool {
+	id, ok := f.(*ast.Ident)
+	if !ok {
+		return false
+	}
+	b, ok := w.info.Uses[id].(*types.Builtin)
+	return ok && b.Name() == name
+}
+
+// stmtsIR translates a statement list; every statement outside the subset becomes SOther
+func (w *walker) stmtsIR(list []ast.Stmt) string {
+	var out []string
+	for _, s := range list {
+		out = append(out, w.stmtIR(s)...)
+	}
+	return coqList(out)
+}
+
+func (w *walker) stmtIR(s ast.Stmt) []string {
+	switch s := s.(type) {
+	case *ast.AssignStmt:
+		if len(s.Lhs) != 1 || len(s.Rhs) != 1 {
+			return w.other(s)
+		}
+		switch s.Tok {
+		case token.DEFINE: // x := e
+			id, ok := s.Lhs[0].(*ast.Ident)
+			if !ok {
+				return w.other(s)
+			}
+			e, ok := w.exprIR(s.Rhs[0])
+			if !ok || w.info.Defs[id] == nil || id.Name == "_" { // not a NEW variable (or blank)
+				return w.other(s)
+			}
+			return []string{fmt.Sprintf("SLocal %s %s", q(w.nameOf(id)), e)}
+		case token.ASSIGN:
+			if ix, ok := s.Lhs[0].(*ast.IndexExpr); ok { // m[k] = v
+				if m, isMap := w.isMapIdent(ix.X); isMap && w.fresh(ix.X.(*ast.Ident)) {
+					k, ok1 := w.exprIR(ix.Index)
+					v, ok2 := w.exprIR(s.Rhs[0])
+					if ok1 && ok2 {
+						return []string{fmt.Sprintf("SStore %s %s %s", q(m), k, v)}
+					}
+				}
+				return w.other(s)
+			}
+			if id, ok := s.Lhs[0].(*ast.Ident); ok { // x = append(x, e)
+				if call, ok := s.Rhs[0].(*ast.CallExpr); ok && w.isBuiltin(call.Fun, "append") && len(call.Args) == 2 && !call.Ellipsis.IsValid() {
+					if a0, ok := call.Args[0].(*ast.Ident); ok && a0.Name == id.Name && w.info.Uses[a0] == w.info.Uses[id] && w.fresh(id) {
+						if e, ok := w.exprIR(call.Args[1]); ok && w.nameOf(id) != "" {
+							return []string{fmt.Sprintf("SAppend %s %s", q(w.nameOf(id)), e)}
+						}
+					}
+				}
+			}
+		}
+		return w.other(s)
+	case *ast.DeclStmt: // var x T = e
+		if gd, ok := s.Decl.(*ast.GenDecl); ok && gd.Tok == token.VAR && len(gd.Specs) == 1 {
+			if vs, ok := gd.Specs[0].(*ast.ValueSpec); ok && len(vs.Names) == 1 && len(vs.Values) == 1 {
+				if e, ok := w.exprIR(vs.Values[0]); ok && w.nameOf(vs.Names[0]) != "" {
+					return []string{fmt.Sprintf("SLocal %s %s", q(w.nameOf(vs.Names[0])), e)}
+				}
+			}
+		}
+		return w.other(s)
+	case *ast.IfStmt:
+		var out []string
+		if s.Init != nil {
+			init := w.stmtIR(s.Init)
+			if len(init) != 1 || !strings.HasPrefix(init[0], "SLocal ") {
+				return w.other(s)
+			}
+			out = append(out, init[0])
+		}
+		c, ok := w.exprIR(s.Cond)
+		if !ok {
+			return w.other(s)
+		}
+		els := "[]"
+		switch e := s.Else.(type) {
+		case nil:
+		case *ast.BlockStmt:
+			els = w.stmtsIR(e.List)
+		case *ast.IfStmt:
+			els = coqList(w.stmtIR(e))
+		default:
+			return w.other(s)
+		}
+		return append(out, fmt.Sprintf("SIf %s %s %s", c, w.stmtsIR(s.Body.List), els))
+	case *ast.SwitchStmt: // expression switch without fallthrough = the if-else chain it abbreviates
+		if s.Init != nil {
+			return w.other(s)
+		}
+		type clause struct {
+			cond string
+			body string
+		}
+		var clauses []clause
+		dflt := "[]"
+		for _, c := range s.Body.List {
+			cc, ok := c.(*ast.CaseClause)
+			if !ok {
+				return w.other(s)
+			}
+			for _, b := range cc.Body {
+				if br, isBr := b.(*ast.BranchStmt); isBr && br.Tok == token.FALLTHROUGH {
+					return w.other(s)
+				}
+			}
+			if cc.List == nil {
+				dflt = w.stmtsIR(cc.Body)
+				continue
+			}
+			// condition: tag == c1 || tag == c2 ...   (tagless switch: c1 || c2 ...)
+			var cond ast.Expr
+			for _, ce := range cc.List {
+				var one ast.Expr = ce
+				if s.Tag != nil {
+					one = &ast.BinaryExpr{X: s.Tag, Op: token.EQL, Y: ce}
+				}
+				if cond == nil {
+					cond = one
+				} else {
+					cond = &ast.BinaryExpr{X: cond, Op: token.LOR, Y: one}
+				}
+			}
+			e, ok := w.exprIR(cond)
+			if !ok {
+				return w.other(s)
+			}
+			clauses = append(clauses, clause{e, w.stmtsIR(cc.Body)})
+		}
+		chain := dflt
+		for i := len(clauses) - 1; i >= 0; i-- {
+			chain = coqList([]string{fmt.Sprintf("SIf %s %s %s", clauses[i].cond, clauses[i].body, chain)})
+		}
+		if len(clauses) == 0 {
+			return w.other(s)
+		}
+		return []string{strings.TrimSuffix(strings.TrimPrefix(chain, "["), "]")}
+	case *ast.BranchStmt:
+		if s.Tok == token.CONTINUE && s.Label == nil && w.depth == 0 {
+			return []string{"SContinue"}
+		}
+		return w.other(s)
+	case *ast.ReturnStmt:
+		var vs []string
+		for _, r := range s.Results {
+			e, ok := w.exprIR(r)
+			if !ok {
+				return w.other(s)
+			}
+			vs = append(vs, e)
+		}
+		return []string{"SReturn " + coqList(vs)}
+	case *ast.ExprStmt:
+		call, ok := s.X.(*ast.CallExpr)
+		if !ok {
+			return w.other(s)
+		}
+		if w.isBuiltin(call.Fun, "panic") && len(call.Args) == 1 {
+			if e, ok := w.exprIR(call.Args[0]); ok {
+				return []string{"SPanic " + e}
+			}
+			return w.other(s)
+		}
+		// sort.Sort(T(x))
+		if sel, ok := call.Fun.(*ast.SelectorExpr); ok && len(call.Args) == 1 {
+			if f, isF := w.info.Uses[sel.Sel].(*types.Func); isF && f.FullName() == "sort.Sort" {
+				if conv, ok := call.Args[0].(*ast.CallExpr); ok && len(conv.Args) == 1 {
+					if tv, has := w.info.Types[conv.Fun]; has && tv.IsType() {
+						if x, ok := conv.Args[0].(*ast.Ident); ok && w.nameOf(x) != "" {
+							tn := w.norm(conv.Fun)
+							return []string{fmt.Sprintf("SSort %s %s", q(w.nameOf(x)), q(tn))}
+						}
+					}
+				}
+			}
+		}
+		return w.other(s)
+	}
+	return w.other(s)
+}
+
+func identName(e ast.Expr) (string, bool) {
+	if e == nil {
+		return "_", true
+	}
+	id, ok := e.(*ast.Ident)
+	if !ok {
+		return "", false
+	}
+	return id.Name, true
+}
+
+// loopIR fills the IR fields of a site
+func (w *walker) loopIR(n *ast.RangeStmt, st *site) {
+	w.vname, w.vused, w.depth = map[*types.Var]string{}, map[string]*types.Var{}, 0
+	w.loop = n
+	defer func() { w.loop = nil }()
+	st.KVar, st.VVar, st.After = "_", "_", "[]"
+	ranged, okR := w.exprIR(n.X)
+	st.Ranged = ranged
+	k, okK := identName(n.Key)
+	v, okV := identName(n.Value)
+	if !okR || !okK || !okV || (n.Tok != token.DEFINE && !(k == "_" && v == "_")) {
+		// the loop variables are existing variables (they keep the LAST entry after the loop), or not plain names
+		st.Body = coqList([]string{"SOther " + q("range assigns to existing variables or the ranged expression is not pure")})
+		return
+	}
+	if id, isId := n.Key.(*ast.Ident); isId && k != "_" {
+		k = w.nameOf(id)
+	}
+	if id, isId := n.Value.(*ast.Ident); isId && v != "_" {
+		v = w.nameOf(id)
+	}
+	st.KVar, st.VVar = k, v
+	st.Body = w.stmtsIR(n.Body.List)
+	// the statements that follow the loop in its block (at most three)
+	if len(w.stack) > 0 {
+		var list []ast.Stmt
+		switch p := w.stack[len(w.stack)-1].(type) {
+		case *ast.BlockStmt:
+			list = p.List
+		case *ast.CaseClause:
+			list = p.Body
+		case *ast.CommClause:
+			list = p.Body
+		}
+		for i, s := range list {
+			if s == ast.Stmt(n) {
+				rest := list[i+1:]
+				if len(rest) > 3 {
+					rest = rest[:3]
+				}
+				st.After = w.stmtsIR(rest)
+			}
+		}
+	}
+}
+
+// telemetryCall: is this call a call of a function of a metrics package (the value only leaves the process as a metric)?
+func (w *walker) telemetryCall(c *ast.CallExpr) bool {
+	var id *ast.Ident
+	switch f := c.Fun.(type) {
+	case *ast.Ident:
+		id = f
+	case *ast.SelectorExpr:
+		id = f.Sel
+	}
+	if id == nil {
+		return false
+	}
+	f, ok := w.info.Uses[id].(*types.Func)
+	if !ok || f.Pkg() == nil {
+		return false
+	}
+	switch f.Pkg().Path() {
+	case "github.com/cosmos/cosmos-sdk/telemetry", "github.com/armon/go-metrics":
+		return true
+	}
+	return false
+}
+
+// clockSink: called at the selector of a wall-clock read (time.Now ...) with the ancestor stack in place.  Returns
+// " [only into telemetry]" when the value read is a direct argument of a metrics call, or is assigned to a new
+// variable whose every use in the function is a direct argument of a metrics call; "" otherwise.
+func (w *walker) clockSink() string {
+	const yes = " [only into telemetry]"
+	n := len(w.stack)
+	if n < 2 {
+		return ""
+	}
+	call, ok := w.stack[n-1].(*ast.CallExpr) // time.Now()
+	if !ok {
+		return ""
+	}
+	switch p := w.stack[n-2].(type) {
+	case *ast.CallExpr:
+		for _, a := range p.Args {
+			if a == ast.Expr(call) && w.telemetryCall(p) {
+				return yes
+			}
+		}
+	case *ast.AssignStmt:
+		if p.Tok != token.DEFINE || len(p.Lhs) != 1 || len(p.Rhs) != 1 || p.Rhs[0] != ast.Expr(call) || w.body == nil {
+			return ""
+		}
+		id, ok := p.Lhs[0].(*ast.Ident)
+		if !ok {
+			return ""
+		}
+		obj := w.info.Defs[id]
+		if obj == nil {
+			return ""
+		}
+		uses, good := 0, 0
+		var stack []ast.Node
+		ast.Inspect(w.body, func(m ast.Node) bool {
+			if m == nil {
+				stack = stack[:len(stack)-1]
+				return true
+			}
+			if u, isId := m.(*ast.Ident); isId && w.info.Uses[u] == obj {
+				uses++
+				if len(stack) > 0 {
+					if c, isCall := stack[len(stack)-1].(*ast.CallExpr); isCall && w.telemetryCall(c) {
+						for _, a := range c.Args {
+							if a == ast.Expr(u) {
+								good++
+							}
+						}
+					}
+				}
+			}
+			stack = append(stack, m)
+			return true
+		})
+		if uses > 0 && uses == good {
+			return yes
+		}
+	}
+	return ""
 }
